@@ -15,8 +15,8 @@ def hashes(alsim, prop, n, nproc, seed):
     for p in procs:
         for line in p.stdout:
             if line.startswith('H '):
-                _, run, ph, eh = line.split()
-                H[int(run)] = (ph, eh)
+                f = line.split()
+                H[int(f[1])] = tuple(f[2:])
         p.wait()
     return H
 def main():
